@@ -35,6 +35,12 @@ type ColDef struct {
 type Table struct {
 	Cols []ColDef `json:"cols"`
 	Rows [][]Val  `json:"rows"`
+	// rows of the table's past: Dead[i] is inserted before Rows[DeadAt[i]] (after the last row when DeadAt[i] = len(Rows)) and all
+	// of them are deleted again before the first query - by DeadWhere, a condition that holds for them only. The specification
+	// is given Rows alone: what a table holds is what its history implies, tombstones are not rows
+	Dead      [][]Val `json:"dead"`
+	DeadAt    []int   `json:"deadat"`
+	DeadWhere string  `json:"deadwhere"`
 }
 
 type Operand struct {
@@ -121,6 +127,14 @@ func str(bs []int) string {
 
 // zeroPad: integer literals of the statement being rendered are written with leading zeros (decimal all the same)
 var zeroPad bool
+
+// the specification's largest LIMIT / OFFSET (TLC's largest integer) stands for the largest one the parser takes
+func limNum(n int) string {
+	if n == 2147483647 {
+		return "9223372036854775807"
+	}
+	return num(int64(n))
+}
 
 func num(n int64) string {
 	if zeroPad && n >= 0 {
@@ -266,10 +280,10 @@ func render(q Query) string {
 	}
 	lim, off := "", ""
 	if q.Limit >= 0 {
-		lim = fmt.Sprintf(" %s %s", kw("LIMIT", st), num(int64(q.Limit)))
+		lim = fmt.Sprintf(" %s %s", kw("LIMIT", st), limNum(q.Limit))
 	}
 	if q.Offset >= 0 {
-		off = fmt.Sprintf(" %s %s", kw("OFFSET", st), num(int64(q.Offset)))
+		off = fmt.Sprintf(" %s %s", kw("OFFSET", st), limNum(q.Offset))
 	}
 	if st%4 >= 2 {
 		sb += off + lim
@@ -484,6 +498,20 @@ func handle(req Request) Response {
 				}
 				rowsToLoad = rowsToLoad[k:]
 			}
+			if len(t.Dead) > 0 {
+				var mixed [][]Val
+				for i := 0; i <= len(rowsToLoad); i++ {
+					for k, at := range t.DeadAt {
+						if at == i && k < len(t.Dead) {
+							mixed = append(mixed, t.Dead[k])
+						}
+					}
+					if i < len(rowsToLoad) {
+						mixed = append(mixed, rowsToLoad[i])
+					}
+				}
+				rowsToLoad = mixed
+			}
 			for _, row := range rowsToLoad {
 				var cs, vs []string
 				for i, v := range row {
@@ -502,6 +530,19 @@ func handle(req Request) Response {
 					if (v.T == "i" || v.T == "I") && v.V < 0 {
 						negative = true
 					}
+				}
+				if !negative {
+					// the row as SQL text; a text the front end refuses (it is a valid statement: that is C10's and C08's business)
+					// does not keep the SELECTs from being judged: the row then goes in as typed values
+					r := runStmt(sess, fmt.Sprintf("INSERT INTO %s (%s) VALUES (%s)", n, strings.Join(cs, ", "), strings.Join(vs, ", ")))
+					if r.Panic == "" && !r.Hang && !r.Err {
+						continue
+					}
+					if r.Panic != "" || r.Hang {
+						setup(fmt.Sprintf("INSERT INTO %s (%s) VALUES (%s)", n, strings.Join(cs, ", "), strings.Join(vs, ", ")))
+						return resp
+					}
+					negative = true
 				}
 				if negative {
 					// SQL text has no negative literals; such rows enter a table the way cmd/csvimport stores them:
@@ -533,6 +574,13 @@ func handle(req Request) Response {
 					continue
 				}
 				if !setup(fmt.Sprintf("INSERT INTO %s (%s) VALUES (%s)", n, strings.Join(cs, ", "), strings.Join(vs, ", "))) {
+					return resp
+				}
+			}
+		}
+		for _, n := range names {
+			if t := req.Db[n]; len(t.Dead) > 0 {
+				if !setup(fmt.Sprintf("DELETE FROM %s WHERE %s", n, t.DeadWhere)) {
 					return resp
 				}
 			}
